@@ -57,6 +57,10 @@ def rand_default_shifts(rng, axes):
     pairs = []
     for ax in axes:
         present = [p for p, _ in ax["pos"]]
+        if pairs and rng.random() < 0.35 and all(f in present and t_ in present for f, t_ in pairs[-1][1]):
+            # the table of the previous axis again (the driver hands both axes ONE mapping object)
+            pairs.append([ax["name"], [list(x) for x in pairs[-1][1]]])
+            continue
         if rng.random() < 0.5:
             t = []
             for p in present:
